@@ -3,6 +3,7 @@ package checks
 import (
 	"bytes"
 	"fmt"
+	"io"
 	iofs "io/fs"
 	"os"
 	"os/exec"
@@ -29,17 +30,17 @@ type c19Case struct {
 }
 
 type c19Attr struct {
-	Path  string
-	Dir   bool
-	Link  string
-	Mode  uint32 // 12 bits
-	UID   int
-	GID   int
-	MTime int64
-	ATime int64
-	CTime int64
+	Path                              string
+	Dir                               bool
+	Link                              string
+	Mode                              uint32 // 12 bits
+	UID                               int
+	GID                               int
+	MTime                             int64
+	ATime                             int64
+	CTime                             int64
 	Hidden, System, ReadOnly, Archive bool
-	size  int
+	size                              int
 }
 
 var c19IDs = []int{0, 1, 1000, 65534, 65535, 65536, 1 << 31, (1 << 32) - 1}
@@ -158,7 +159,19 @@ func c19Ext4(res *core.Result, r gen.R, p c19Case, env *core.Env, fail func(rule
 		attrs = append(attrs, a)
 	}
 	// interleave attribute changes with content writes; each change touches ONE attribute of ONE path
-	type state struct{ modeSet, ownSet, timeSet bool }
+	type state struct{ modeSet, ownSet, timeSet, crSet bool }
+	// handles opened earlier and kept: a content write through one of them happens after attribute
+	// changes made since it was opened
+	type held struct {
+		path string
+		f    filesystem.File
+	}
+	var olds []held
+	defer func() {
+		for _, h := range olds {
+			h.f.Close()
+		}
+	}()
 	st8 := map[string]*state{}
 	for _, a := range attrs {
 		st8[a.Path] = &state{}
@@ -195,9 +208,44 @@ func c19Ext4(res *core.Result, r gen.R, p c19Case, env *core.Env, fail func(rule
 				fail("attr-call-refused", "chtimes", "Chtimes(%s): %v", a.Path, err)
 				return
 			}
-			a.CTime, a.ATime, a.MTime, st8[a.Path].timeSet = ct, at, mt, true
+			a.CTime, a.ATime, a.MTime, st8[a.Path].timeSet, st8[a.Path].crSet = ct, at, mt, true, true
 			res.Count("calls.chtimes", 1)
 		case 3:
+			// sometimes: open a handle now and keep it; sometimes: write through a handle opened earlier,
+			// growing the file or overwriting inside it
+			if s%3 == 0 {
+				b := attrs[r.Intn(len(attrs))]
+				if !b.Dir && b.Link == "" && len(olds) < 12 {
+					if f, err := fs.OpenFile(b.Path, os.O_RDWR); err == nil {
+						olds = append(olds, held{b.Path, f})
+						res.Count("calls.handle_opened_and_kept", 1)
+					}
+				}
+				continue
+			}
+			if s%3 == 1 && len(olds) > 0 {
+				h := olds[r.Intn(len(olds))]
+				var werr error
+				if r.Intn(2) == 0 {
+					_, werr = h.f.Seek(0, io.SeekEnd)
+					if werr == nil {
+						_, werr = h.f.Write(gen.PRFBytes(uint64(s), 1+r.Intn(5000)))
+					}
+					res.Count("calls.growing_write_through_older_handle", 1)
+				} else {
+					_, werr = h.f.Seek(0, io.SeekStart)
+					if werr == nil {
+						_, werr = h.f.Write([]byte("x"))
+					}
+					res.Count("calls.overwrite_through_older_handle", 1)
+				}
+				if werr != nil {
+					res.Count("calls.older_handle_write_refused", 1)
+				}
+				st8[h.path].timeSet = false
+				res.Mark("content write through a handle opened before an attribute change")
+				continue
+			}
 			// a content write to another file must not disturb anyone's attributes (its own times excepted)
 			b := attrs[r.Intn(len(attrs))]
 			if b.Dir || b.Link != "" {
@@ -250,6 +298,10 @@ func c19Ext4(res *core.Result, r gen.R, p c19Case, env *core.Env, fail func(rule
 			if sys, ok := fi.Sys().(*ext4.StatT); ok {
 				if s.ownSet && (int64(sys.UID) != int64(a.UID) || int64(sys.GID) != int64(a.GID)) {
 					fail("owner", route+"/"+idClass(int64(a.UID), int64(a.GID)), "%s: owner %d:%d reads back as %d:%d (%s)", a.Path, a.UID, a.GID, sys.UID, sys.GID, route)
+					return false
+				}
+				if s.crSet && sys.CreateTime.Unix() != a.CTime {
+					fail("creation-time", route+"/"+timeClass(a.CTime), "%s: creation time %d reads back as %d (%s)", a.Path, a.CTime, sys.CreateTime.Unix(), route)
 					return false
 				}
 				if s.timeSet && sys.AccessTime.Unix() != a.ATime {
@@ -657,13 +709,13 @@ var _ = strings.TrimSpace
 
 func init() {
 	core.Register(&core.Check{
-		ID:    "C19",
-		Level: "exploration",
-		Rule: "ext4: files, directories and symlinks (targets 1,2,59,60,61,100,255,1000 bytes, relative and absolute) receive seeded sequences of Chmod (all 12 bits incl. setuid/setgid/sticky), Chown (ids 0..2^32-1), Chtimes (1901..2446) interleaved with content writes; every path is re-verified live, after ext4.Read of the image, and against `debugfs stat` as a second opinion. FAT12/16/32: Chtimes (1980..2107, odd seconds) and SetHidden/SetSystem/SetReadOnly/SetArchiveBit interleaved with content writes, verified live and after re-open. squashfs and Rock Ridge ISO: workspace files with modes over all 12 bits, owners over the 16/32-bit range, mtimes across each format's range and symlink targets up to 4095 (ISO: 1000) bytes are finalized and every path is verified through Stat/Sys/Readlink on the re-opened image: attributes unchanged, changing one attribute changes nothing else, kinds never confused. Non-trivial = a case whose attributes were verified; distinct = distinct attribute assignment",
+		ID:          "C19",
+		Level:       "exploration",
+		Rule:        "ext4: files, directories and symlinks (targets 1,2,59,60,61,100,255,1000 bytes, relative and absolute) receive seeded sequences of Chmod (all 12 bits incl. setuid/setgid/sticky), Chown (ids 0..2^32-1), Chtimes (creation, access and modification time, 1901..2446) interleaved with content writes through fresh handles and through handles that were opened before later attribute changes (growing the file and overwriting inside it); every path is re-verified live, after ext4.Read of the image, and against `debugfs stat` as a second opinion. FAT12/16/32: Chtimes (1980..2107, odd seconds) and SetHidden/SetSystem/SetReadOnly/SetArchiveBit interleaved with content writes, verified live and after re-open. squashfs and Rock Ridge ISO: workspace files with modes over all 12 bits, owners over the 16/32-bit range, mtimes across each format's range and symlink targets up to 4095 (ISO: 1000) bytes are finalized and every path is verified through Stat/Sys/Readlink on the re-opened image: attributes unchanged, changing one attribute changes nothing else, kinds never confused. Non-trivial = a case whose attributes were verified; distinct = distinct attribute assignment",
 		Assumptions: []string{"times are compared at each format's resolution (FAT 2 s)", "the sandbox runs as root, so arbitrary owners can be put on workspace files"},
-		MinSigs:   map[string]int{"quick": 12, "thorough": 300},
-		NeedMarks: []string{"format ext4", "format fat12", "format fat32", "format squashfs", "format iso-rr"},
-		CPUSec:    600,
+		MinSigs:     map[string]int{"quick": 12, "thorough": 300},
+		NeedMarks:   []string{"format ext4", "content write through a handle opened before an attribute change", "format fat12", "format fat32", "format squashfs", "format iso-rr"},
+		CPUSec:      600,
 		Cases: func(seed int64, tier string) []core.Case {
 			r := gen.New(seed ^ 0xC19)
 			reps, n := 3, 40
